@@ -133,6 +133,15 @@ def run(ctx):
                         p, want_pat, 'bytes' if isb else 'str', corr.flag_names(base_fl)),
                         {'pattern': p, 'decoded': want_pat, 'bytes': isb, 'flags': corr.flag_names(base_fl), 'names': names,
                          'impl': got, 'spec': want})
+                # translate() decodes at the same point as the matchers: same regexes as for the decoded pattern
+                try:
+                    t_raw = api.translate(conv(p), flags=base_fl | api.RAWCHARS)
+                    t_dec = api.translate(conv(want_pat), flags=base_fl)
+                except Exception:
+                    t_raw = t_dec = None
+                if t_raw != t_dec:
+                    ctx.counterexample('RAWCHARS: translate(%r) = %r but translate of the decoded form %r = %r (flags %s)' % (
+                        p, t_raw, want_pat, t_dec, corr.flag_names(base_fl)), {'pattern': p, 'decoded': want_pat, 'bytes': isb, 'flags': corr.flag_names(base_fl)})
                 # without RAWCHARS nothing is decoded: the pattern behaves as with every backslash escape taken literally
                 try:
                     plain = [mt(conv(n), conv(p), flags=base_fl) for n in names[:6] if not isb or all(ord(c) < 256 for c in n)]
